@@ -617,76 +617,91 @@ func ConvertTypedValueToYANGType(schemaElem *sdcpb.SchemaElem, tv *sdcpb.TypedVa
 			}, nil
 		}
 	case schemaElem.GetLeaflist() != nil:
-		switch tv.GetValue().(type) {
-		case *sdcpb.TypedValue_LeaflistVal:
-			return tv, nil
+		// a single value stands for a leaf-list with that one entry
+		elems := []*sdcpb.TypedValue{tv}
+		if ll, ok := tv.GetValue().(*sdcpb.TypedValue_LeaflistVal); ok {
+			elems = ll.LeaflistVal.GetElement()
+		}
+		// the entries carry the type of the leaf-list, like the value of a leaf does
+		converted := make([]*sdcpb.TypedValue, 0, len(elems))
+		for _, e := range elems {
+			ce, err := convertScalarTypedValueToYANGType(schemaElem.GetLeaflist().GetType().GetType(), e)
+			if err != nil {
+				return nil, err
+			}
+			converted = append(converted, ce)
 		}
 		return &sdcpb.TypedValue{
 			Timestamp: tv.GetTimestamp(),
 			Value: &sdcpb.TypedValue_LeaflistVal{
 				LeaflistVal: &sdcpb.ScalarArray{
-					Element: []*sdcpb.TypedValue{tv},
+					Element: converted,
 				},
 			},
 		}, nil
 	case schemaElem.GetField() != nil:
-		switch schemaElem.GetField().GetType().GetType() {
-		default:
-			return tv, nil
-		case "string", "identityref":
-			return tv, nil
-		case "uint64", "uint32", "uint16", "uint8":
-			i, err := strconv.ParseUint(TypedValueToString(tv), 10, 64)
-			if err != nil {
-				return nil, err
-			}
-			ctv := &sdcpb.TypedValue{
-				Timestamp: tv.GetTimestamp(),
-				Value:     &sdcpb.TypedValue_UintVal{UintVal: i},
-			}
-			return ctv, nil
-		case "int64", "int32", "int16", "int8":
-			i, err := strconv.ParseInt(TypedValueToString(tv), 10, 64)
-			if err != nil {
-				return nil, err
-			}
-			ctv := &sdcpb.TypedValue{
-				Timestamp: tv.GetTimestamp(),
-				Value:     &sdcpb.TypedValue_IntVal{IntVal: i},
-			}
-			return ctv, nil
-		case "enumeration":
-			return tv, nil
-		case "union":
-			return tv, nil
-		case "boolean":
-			v, err := strconv.ParseBool(TypedValueToString(tv))
-			if err != nil {
-				return nil, err
-			}
-			return &sdcpb.TypedValue{Value: &sdcpb.TypedValue_BoolVal{BoolVal: v}}, nil
-		case "decimal64":
-			d64, err := ParseDecimal64(TypedValueToString(tv))
-			if err != nil {
-				return nil, err
-			}
-			return &sdcpb.TypedValue{
-				Value: &sdcpb.TypedValue_DecimalVal{
-					DecimalVal: d64,
-				},
-			}, nil
-		case "float":
-			v, err := strconv.ParseFloat(TypedValueToString(tv), 32)
-			if err != nil {
-				return nil, err
-			}
-			return &sdcpb.TypedValue{
-				Timestamp: tv.GetTimestamp(),
-				Value:     &sdcpb.TypedValue_FloatVal{FloatVal: float32(v)},
-			}, nil
-		}
+		return convertScalarTypedValueToYANGType(schemaElem.GetField().GetType().GetType(), tv)
 	}
 	return nil, nil
+}
+
+// convertScalarTypedValueToYANGType converts the value of a leaf (or of one leaf-list entry) to the typed value of the given YANG type
+func convertScalarTypedValueToYANGType(yangType string, tv *sdcpb.TypedValue) (*sdcpb.TypedValue, error) {
+	switch yangType {
+	default:
+		return tv, nil
+	case "string", "identityref":
+		return tv, nil
+	case "uint64", "uint32", "uint16", "uint8":
+		i, err := strconv.ParseUint(TypedValueToString(tv), 10, 64)
+		if err != nil {
+			return nil, err
+		}
+		ctv := &sdcpb.TypedValue{
+			Timestamp: tv.GetTimestamp(),
+			Value:     &sdcpb.TypedValue_UintVal{UintVal: i},
+		}
+		return ctv, nil
+	case "int64", "int32", "int16", "int8":
+		i, err := strconv.ParseInt(TypedValueToString(tv), 10, 64)
+		if err != nil {
+			return nil, err
+		}
+		ctv := &sdcpb.TypedValue{
+			Timestamp: tv.GetTimestamp(),
+			Value:     &sdcpb.TypedValue_IntVal{IntVal: i},
+		}
+		return ctv, nil
+	case "enumeration":
+		return tv, nil
+	case "union":
+		return tv, nil
+	case "boolean":
+		v, err := strconv.ParseBool(TypedValueToString(tv))
+		if err != nil {
+			return nil, err
+		}
+		return &sdcpb.TypedValue{Value: &sdcpb.TypedValue_BoolVal{BoolVal: v}}, nil
+	case "decimal64":
+		d64, err := ParseDecimal64(TypedValueToString(tv))
+		if err != nil {
+			return nil, err
+		}
+		return &sdcpb.TypedValue{
+			Value: &sdcpb.TypedValue_DecimalVal{
+				DecimalVal: d64,
+			},
+		}, nil
+	case "float":
+		v, err := strconv.ParseFloat(TypedValueToString(tv), 32)
+		if err != nil {
+			return nil, err
+		}
+		return &sdcpb.TypedValue{
+			Timestamp: tv.GetTimestamp(),
+			Value:     &sdcpb.TypedValue_FloatVal{FloatVal: float32(v)},
+		}, nil
+	}
 }
 
 func convertUpdateTypedValue(_ context.Context, upd *sdcpb.Update, scRsp *sdcpb.GetSchemaResponse, leaflists map[string]*leafListNotification) (*sdcpb.Update, error) {
